@@ -755,7 +755,8 @@ func c12dCases() (cases []c12dCase, bound string) {
 	th := vreport.Thorough()
 	b := vreport.Pick(2, 3)
 	capA := vreport.Pick(4000, 60000) // never reached in the quick tier
-	cap22 := vreport.Pick(500, 20000)
+	cap22 := vreport.Pick(4000, 80000)
+	b22 := vreport.Pick(1, 3)
 	all := make([]int, len(c12dOps))
 	for i := range all {
 		all[i] = i
@@ -806,15 +807,15 @@ func c12dCases() (cases []c12dCase, bound string) {
 	}
 	for i := range progs {
 		for j := i; j < len(progs); j++ {
-			cases = append(cases, c12dCase{Start: "dirty", Progs: [][]string{progs[i], progs[j]}, Ticks: vreport.Pick(1, 2), Bound: b, MaxExecs: cap22})
+			cases = append(cases, c12dCase{Start: "dirty", Progs: [][]string{progs[i], progs[j]}, Ticks: 2, Bound: b22, MaxExecs: cap22})
 		}
 	}
 	if th {
-		bound = fmt.Sprintf("updaters x calls: 1x1 (%d setters, dirty+clean start), 1x2 (ordered pairs over %d cluster/hosts/router operations), 2x1 (all unordered pairs of the %d setters calls, dirty+clean start), 2x2 (unordered pairs of 2-call programs over %d operations); dumper thread 2 ticks + one quiescent tick; <= %d preemptions; <= %d (2x2: %d) executions per scenario in DFS order",
-			len(all), len(seq), len(all), red, b, capA, cap22)
+		bound = fmt.Sprintf("updaters x calls: 1x1 (%d setters, dirty+clean start), 1x2 (ordered pairs over %d cluster/hosts/router operations), 2x1 (all unordered pairs of the %d setters calls, dirty+clean start), 2x2 (unordered pairs of 2-call programs over %d operations, <= %d preemptions); dumper thread 2 ticks + one quiescent tick; <= %d preemptions for the other shapes; execution cap per scenario %d (2x2: %d), DFS order",
+			len(all), len(seq), len(all), red, b22, b, capA, cap22)
 	} else {
-		bound = fmt.Sprintf("updaters x calls: 1x1 (%d setters, dirty+clean start, <= %d preemptions), 1x2 (ordered pairs over %d cluster/hosts/router operations, <= %d), 2x1 (all unordered pairs of the %d setter calls, dirty start, <= 1 preemption; pairs over the 4 conflicting cluster/hosts/router operations <= %d), 2x2 (unordered pairs of 2-call programs over %d operations, dumper 1 tick, <= %d preemptions, first %d executions per scenario in DFS order); dumper thread 2 ticks + one quiescent tick",
-			len(all), b, len(seq), b, len(all), b, red, b, cap22)
+		bound = fmt.Sprintf("updaters x calls: 1x1 (%d setters, dirty+clean start, <= %d preemptions), 1x2 (ordered pairs over %d cluster/hosts/router operations, <= %d), 2x1 (all unordered pairs of the %d setter calls, dirty start, <= 1 preemption; pairs over the 4 conflicting cluster/hosts/router operations <= %d), 2x2 (unordered pairs of 2-call programs over %d operations, <= %d preemption); dumper thread 2 ticks + one quiescent tick; safety cap %d executions per scenario (not reached)",
+			len(all), b, len(seq), b, len(all), b, red, b22, cap22)
 	}
 	return
 }
@@ -865,16 +866,20 @@ func TestVerifC12Dump(t *testing.T) {
 	}
 	cases, bound := c12dCases()
 	complete := true
-	for _, c := range cases {
+	si, sn := vreport.Shard()
+	for idx, c := range cases {
+		if sn > 1 && idx%sn != si {
+			continue
+		}
 		if p.Expired() {
 			complete = false
 			break
 		}
+		p.Count("scenarios", 1)
 		if !c12dRun(p, c, false) {
 			complete = false
 		}
 	}
-	p.Note("scenarios", len(cases))
 	p.End(complete, bound,
 		"stateless DFS over thread interleavings (preemption bounded) of real setter calls and real DumpConfig ticks writing a real file; one evaluation = one complete execution; distinct = (scenario, per tick: unchanged / which update prefixes the written file holds, final: effective / stale); judged: per tick the written file is a configuration of the history inside the tick's window, at quiescence file == fresh transfer == admin view and the effective configuration is some serialisation of all updates; scenarios cut by the execution cap make the part non-exhaustive")
 }
